@@ -157,7 +157,14 @@ def classify(check, sim, sc, verdict, obs):
     if kind in ('deadlock', 'no-progress'):
         report = sim.blocked_report()
         sites = sorted(set(_site_of(st) for (_i, _n, state, _w, st) in report if state != 'dead'))
-        vio.append((kind + ':' + '|'.join(sites),
+        sig = kind + ':' + '|'.join(sites)
+        hook = getattr(check, 'hang_signature', None)
+        if hook is not None:
+            try:
+                sig = hook(kind, report, sig) or sig
+            except Exception:
+                pass
+        vio.append((sig,
                     {'blocked': [[i, n, s, w, [list(f) for f in st[:14]]] for (i, n, s, w, st) in report],
                      'vtime': sim.now - sim.t0}))
     elif kind == 'step-cap':
